@@ -225,7 +225,7 @@ def make_spec(mode: str, idx: int, case_seed: int) -> Dict[str, Any]:
     r = np.random.default_rng([case_seed, idx])
     cross = bool(idx % 2)
     order = ORDERS[(idx // 2) % 3] if mode != "neg1" else -1
-    sched = _an.SCHEDS[(idx // 6) % 4] if mode != "neg1" else _an.SCHEDS[idx % 4]
+    sched = _an.SCHEDS[(idx // 6) % 4] if mode != "neg1" else _an.SCHEDS[(idx // 2) % 4]
     win = WINS[(idx // 3) % 2]
     o: Dict[str, Any] = {"scheduler": sched, "order": order, "win": win, "olap": [0.5, 0.75, "default", 0.3][int(r.integers(0, 4))],
                          "Jdes": int(r.integers(8, 22)), "Kdes": int(r.choice([2, 5, 20])), "bmin": float(r.choice([1.0, 2.0])),
@@ -604,26 +604,38 @@ def oracle(ctx, intensive: bool = False, hints: List[Dict[str, Any]] = ()) -> C.
         return len(P.violations) >= 5
 
     off = int(ctx.rng.integers(0, 10 ** 6)) * 144
-    # 0. CUDA through the simulator (analyzer level), small cases covering the six kernels (orders 0,1,2 x auto/cross): invariance on the
-    #    CUDA backend and agreement with numba
+    # 0. CUDA through the simulator (analyzer level).  The simulator costs ~0.5 s per kernel launch (= per bin), so: single-bin cases on the six
+    #    kernels (orders 0,1,2 x auto/cross, short L) and full `compute_spectrum(backend="cuda")` runs restricted by `band` to three bins:
+    #    invariance on the CUDA backend and agreement with numba
     if cuda is not None:
-        n_cu = ctx.scale(6, 18) * (2 if intensive else 1)
+        n_cu = ctx.scale(7, 28) * (2 if intensive else 1)
         for i in range(n_cu):
             if used() > 0.3 or enough():
                 if used() > 0.3:
                     P.notes.append(f"time budget reached after {i} of {n_cu} CUDA-simulator cases")
                 break
-            s = make_spec("plan" if i % 4 else "single", off + i, cs())      # idx rotation: cross = i%2, order = (i//2)%3
-            if s["mode"] == "plan":
-                s["N"] = 260 + 20 * (i % 4)
-                s["o"].update({"Jdes": 5, "Kdes": 2, "olap": 0.5, "Lmin": 16})
+            k = i % 7
+            s = make_spec("single" if k < 6 else "plan", off + (i if k < 6 else 1 + 2 * (i // 7)), cs())   # idx rotation: cross = idx%2, order = (idx//2)%3
             s["layout"] = "2xN"
             s["cuda_light"] = True
+            if s["mode"] == "plan":
+                s["N"] = 400
+                s["o"].update({"Jdes": 6, "Kdes": 2, "olap": 0.5, "Lmin": 24})
+                try:
+                    x1, x2 = build_records(s)
+                    with warnings.catch_warnings():
+                        warnings.simplefilter("ignore")
+                        f = np.asarray(_an.analyzer(pack(x1, x2, "2xN"), s["fs"], **s["o"]).plan()["f"])
+                    j0 = int(np.random.default_rng(s["rec_seed"]).integers(0, max(1, len(f) - 2)))
+                    j1 = min(j0 + 2, len(f) - 1)
+                    s["o"]["band"] = [float(f[j0]) * (1 - 1e-12), float(f[j1]) * (1 + 1e-12)]
+                except (Exception, SystemExit):
+                    continue
             run_spec(P, s, ["numba", "cuda"], cuda, stats)
     else:
         P.notes.append("CUDA backend not exercised (simulator worker unavailable)")
     # 1. every L in 1..8 (and some larger) through compute_single_bin, orders 0..2, auto and cross
-    n_single = ctx.scale(48, 480) * mult
+    n_single = ctx.scale(96, 720) * mult
     for i in range(n_single):
         if used() > 0.5 or enough():
             break
@@ -632,7 +644,7 @@ def oracle(ctx, intensive: bool = False, hints: List[Dict[str, Any]] = ()) -> C.
         if i < 2:
             P.sample({"op": "oracle", **short(s)})
     # 2. full plans (Lmin = 1 plans reach short segments), schedulers x windows x orders x auto/cross
-    n_plan = ctx.scale(24, 288) * mult
+    n_plan = ctx.scale(48, 432) * mult
     for i in range(n_plan):
         if used() > 0.8 or enough():
             if used() > 0.8:
@@ -643,7 +655,7 @@ def oracle(ctx, intensive: bool = False, hints: List[Dict[str, Any]] = ()) -> C.
         if i < 2:
             P.sample({"op": "oracle", **short(s)})
     # 3. order −1: no detrending at all
-    n_neg = ctx.scale(8, 64) * mult
+    n_neg = ctx.scale(16, 96) * mult
     for i in range(n_neg):
         if used() > 0.9 or enough():
             break
